@@ -67,37 +67,33 @@ def superEligible (s : State) (n : Node) (status : Nat) (rep : Int) (ignore : Li
     | some p => ign || (p.totalStorage - p.usedStorage < size)
   !ign && (status &&& n.status = status) && n.reputation ≥ rep
 
-/-- the `for {}` loop over `uint8 i`; `none` = fuel exhausted. Returns chosen node index. -/
+/-- the cursor loop over `uint8 i`, bounded by `tries < len(snodes)` (the `fix:` of F04): the
+    structural argument is the number of tries left. Returns the chosen index, if any. -/
 def nextSuperLoop (s : State) (snodes : List Node) (status : Nat) (rep : Int) (ignore : List Addr) (size : Int) (round0 : Nat) :
-    Nat → Nat → Option (Option Nat)
+    Nat → Nat → Option Nat
   | 0, _ => none
-  | fuel + 1, i =>
+  | tries + 1, i =>
     let len8 := snodes.length % 256
     let i := if i ≥ len8 then 0 else i
     match snodes[i]? with
-    | none => none   -- index out of range: Go panics; unreachable for len ≤ 255 (treated as hang/halt)
+    | none => none   -- unreachable for 0 < len ≤ 255 (an index panic for longer lists is not modelled)
     | some n =>
-      if superEligible s n status rep ignore size then some (some i)
+      if superEligible s n status rep ignore size then some i
       else
         let stop := if round0 = 0 then i = (snodes.length - 1) % 256 else i = (round0 - 1) % 256
-        if stop then some none else nextSuperLoop s snodes status rep ignore size round0 fuel ((i + 1) % 256)
-
-/-- iterations after which the `uint8` cursor loop has revisited a configuration: it never terminates -/
-def superFuel : Nat := 600
+        if stop then none else nextSuperLoop s snodes status rep ignore size round0 tries ((i + 1) % 256)
 
 /-- the body of `GetNextSuperNodes` once the stored cursor `round0` has been read -/
-def pickSuper (s : State) (round0 : Nat) (status : Nat) (rep : Int) (ignore : List Addr) (size : Int) : Option (State × Option Node) :=
+def pickSuper (s : State) (round0 : Nat) (status : Nat) (rep : Int) (ignore : List Addr) (size : Int) : State × Option Node :=
   let snodes := s.nodes.filter (·.role = 1)
-  if snodes.length = 0 then some (s, none) else
-  match nextSuperLoop s snodes status rep ignore size round0 superFuel round0 with
-  | none => none
-  | some none => some (s, none)
-  | some (some i) =>
+  match nextSuperLoop s snodes status rep ignore size round0 snodes.length round0 with
+  | none => (s, none)
+  | some i =>
     let next := if (i + 1) % 256 ≥ snodes.length then 0 else (i + 1) % 256
-    some ({ s with nodeRound := some next }, snodes[i]?)
+    ({ s with nodeRound := some next }, snodes[i]?)
 
-/-- `GetNextSuperNodes`: returns the state (cursor updated) and the chosen super node, `none` = hang. -/
-def getNextSuperNode (s : State) (status : Nat) (rep : Int) (ignore : List Addr) (size : Int) : Option (State × Option Node) :=
+/-- `GetNextSuperNodes`: returns the state (cursor updated) and the chosen super node. -/
+def getNextSuperNode (s : State) (status : Nat) (rep : Int) (ignore : List Addr) (size : Int) : State × Option Node :=
   match s.nodeRound with
   | none => pickSuper { s with nodeRound := some 0 } 0 status rep ignore size
   | some r => pickSuper s r status rep ignore size
@@ -144,11 +140,10 @@ def randomSPWith (s : State) (sup : Option Node) (count : Int) (ignore : List Ad
       let sps ← drawSPs s (candidates s ignore size) count
       pure (s, sps)
 
-/-- `RandomSP(count, ignore, size)`: throws `HANG` when the super-node cursor loop does not
-    terminate; any other error is a Go panic (slice bounds). -/
+/-- `RandomSP(count, ignore, size)`; an error is a Go panic (slice bounds). Both selection loops
+    are total after the `fix:` commits of F03 and F04, so nothing here can hang any more. -/
 def randomSP (s : State) (count : Int) (ignore : List Addr) (size : Int) : TxM (State × List Node) :=
-  match getNextSuperNode s ST_SELECT 8000 ignore size with
-  | none => throw HANG
-  | some (s, sup) => randomSPWith s sup count ignore size
+  let (s, sup) := getNextSuperNode s ST_SELECT 8000 ignore size
+  randomSPWith s sup count ignore size
 
 end SaoVerif
